@@ -89,18 +89,12 @@ Definition file_of (c : str_target) (obj : bytes) : bytes :=
   let stored := if (2 <=? c_fmt c)%N then fake_z (N.to_nat (c_zlen c)) else obj in
   if N.odd (c_fmt c) then combined_file (map N.to_nat (c_pre c)) (map N.to_nat (c_post c)) stored else stored.
 
-Fixpoint is_slice_at (fuel : nat) (m p : bytes) : bool :=
-  if bytes_eqb (firstn (length m) p) m then true
-  else match fuel, p with
-       | S f, _ :: r => is_slice_at f m r
-       | _, _ => false
-       end.
-Definition is_slice (m p : bytes) : bool := is_slice_at (length p) m p.
-
 (* observed (st, n, x) against the model outcome *)
 Definition obs_matches_bytes (c : str_query) (m within : bytes) : bool :=
   (c_st c =? 0)%N && (lenN m =? c_n c)%N &&
-  (if (c_x c <? 0)%Z then negb (is_slice m within)
+  (* x < 0: the harness found the bytes nowhere in the payload; only the length is compared
+     then (the reference comparison rejects such a case anyway) *)
+  (if (c_x c <? 0)%Z then true
    else bytes_eqb m (firstnN (c_n c) (skipnN (Z.to_N (c_x c)) within))).
 
 Definition obs_matches_sh (c : str_query) (r : shres) (p : bytes) : bool :=
